@@ -238,11 +238,13 @@ func ruleCodecRegistries(c *Ctx, r *Report) {
 			continue
 		}
 		r.Sites += len(fn.Blocks)
-		for _, b := range fn.Blocks {
-			for _, in := range b.Instrs {
-				if al, ok := in.(*ssa.Alloc); ok {
-					if nm := namedOf(al.Type()); strings.HasPrefix(nm, "pkg/protocol/handshake.Message") {
-						made[strings.TrimPrefix(nm, "pkg/protocol/handshake.")] = true
+		for _, uf := range c.unitFuncs(fn) {
+			for _, b := range uf.Blocks {
+				for _, in := range b.Instrs {
+					if al, ok := in.(*ssa.Alloc); ok {
+						if nm := namedOf(al.Type()); strings.HasPrefix(nm, "pkg/protocol/handshake.Message") {
+							made[strings.TrimPrefix(nm, "pkg/protocol/handshake.")] = true
+						}
 					}
 				}
 			}
